@@ -428,7 +428,17 @@ class Ctx:
 
 
 def load_known():
+    """known_findings.json is the committed list; known_findings.d/*.json are per-property
+    fragments with the same shape (merged into the main file by bin/merge-fragments)."""
+    out = []
     p = os.path.join(VERIF, "known_findings.json")
-    if not os.path.exists(p):
-        return []
-    return json.load(open(p)).get("findings", [])
+    if os.path.exists(p):
+        out += json.load(open(p)).get("findings", [])
+    d = os.path.join(VERIF, "known_findings.d")
+    if os.path.isdir(d):
+        for f in sorted(os.listdir(d)):
+            if f.endswith(".json"):
+                for e in json.load(open(os.path.join(d, f))).get("findings", []):
+                    if not any(x.get("key") == e.get("key") and x.get("property") == e.get("property") for x in out):
+                        out.append(e)
+    return out
